@@ -457,6 +457,7 @@ func runAll(c *run.Ctx) {
 				// the lattice box straddles the origin: a crossing computed as a + (b-a)*t then has a finer ulp
 				// than the product, so that the rounding of t survives in the result (and differs between pairs)
 				cfg.OffX, cfg.OffY = -k.Rng.Range(0, cfg.Side), -k.Rng.Range(0, cfg.Side)
+				cfg.CenterOnP = k.Rng.Bool()
 			}
 			g := &gen.G{R: k.Rng, Cfg: cfg}
 			a, b, ok := g.ConcurrentPair()
@@ -480,6 +481,7 @@ func runAll(c *run.Ctx) {
 				cfg := gen.NewCfg(k.Rng, gen.DSmall)
 				cfg.Side = k.Rng.Range(6, 14)
 				cfg.OffX, cfg.OffY = -k.Rng.Range(0, cfg.Side), -k.Rng.Range(0, cfg.Side)
+				cfg.CenterOnP = rep%3 != 0
 				g := &gen.G{R: k.Rng, Cfg: cfg}
 				a, b, ok := g.ConcurrentPair()
 				if !ok {
